@@ -54,7 +54,7 @@ def workload(case: dict, root_dir: str, on_root_only_fs: bool = True):
         items = list(case["items"])
         with _EXEC_LOCK:
             pass
-        res = list(parallel.iter_unordered(recorded_square, items, func_kwargs={"offset": case.get("offset", 0)}, max_workers=mw))
+        res = list(parallel.iter_unordered(recorded_square, items, func_kwargs={"offset": case.get("offset", 0)}, max_workers=mw, rank0_node_only=bool(case.get("rank0_node_only"))))
         out["results"] = sorted(res)
         return out
 
